@@ -127,6 +127,30 @@ impl Sim {
     async fn wire(cfg: &SimConfig, world: &World) -> StdResult<(DependenciesBuilder, ServeCommandDependenciesContainer, AggregatorRuntime)> {
         let configuration = cfg.to_configuration();
         let snapshotter = Arc::new(FakeSnapshotter::new(cfg.data_dir.join("snapshots").join("fake_snapshots")));
+        // The aggregator's file archiver verifies an archive by unpacking it below
+        // `std::env::temp_dir()/mithril_archiver_verify_archive/<archive file name>`, a path it reads
+        // when its dependencies are built. Many aggregators of this harness run at the same time on
+        // one machine and produce archives with the same names (same network / epoch / immutable):
+        // sharing that directory makes artifact tasks fail at random (seen as a crash point that one
+        // run reaches and its armed twin does not). Each simulated aggregator gets its own temp
+        // directory while its dependencies are built; the variable is restored right after.
+        let own_tmp = cfg.data_dir.join("tmp");
+        let _ = std::fs::create_dir_all(&own_tmp);
+        let prev_tmp = std::env::var_os("TMPDIR");
+        std::env::set_var("TMPDIR", &own_tmp);
+        let built = Self::wire_inner(configuration, snapshotter, world).await;
+        match prev_tmp {
+            Some(p) => std::env::set_var("TMPDIR", p),
+            None => std::env::remove_var("TMPDIR"),
+        }
+        built
+    }
+
+    async fn wire_inner(
+        configuration: ServeCommandConfiguration,
+        snapshotter: Arc<FakeSnapshotter>,
+        world: &World,
+    ) -> StdResult<(DependenciesBuilder, ServeCommandDependenciesContainer, AggregatorRuntime)> {
         let mut b = DependenciesBuilder::new(discard_logger(), Arc::new(configuration));
         b.snapshot_uploader = Some(world.snapshot_uploader.clone());
         b.chain_observer = Some(world.chain_observer.clone());
